@@ -2,6 +2,7 @@
 shape/alignment/organisation/composition) and validation of the recorded address of every pixel of every view of real
 images (tracking allocator) and of views over guard-paged caller buffers; every pixel is also touched through
 the accessors and algorithms under ASan/UBSan/guard pages."""
+import json
 OWN = {'P_InBounds', 'P_NoFault', 'UnknownEvent'}
 
 def keyfn_factory():
@@ -20,13 +21,24 @@ def run(ctx, mode='views', own=OWN):
     if mode == 'nav':
         ctx.mc('MC_Navigation', 'MC_Navigation_%s.cfg' % ctx.tier, timeout=6000)
     traces = ctx.record(exe, [mode] if mode != 'views' else [], shards=16, timeout=3000)
+    if own is not OWN:
+        # C02 / C03 also quantify over views that have no addresses (virtual locators, dereference adaptors): by value
+        vexe, = ctx.build(['c02_values.nsan'], timeout=3000)
+        traces += ctx.record(vexe, [], shards=4, name='trace-values', timeout=3000)
     ctx.validate('Trace_Views', traces, timeout=3000)
     ctx.own = own
-    ctx.scan(traces, keyfn_factory(), trim=300)
+    kf = keyfn_factory()
+    def k(ev):
+        if ev['e'] == 'VView' and ev['rw'] * ev['rh'] > 0:
+            return ('VView', ev['kind'], ev['w'], ev['h'], json.dumps(ev['ops']))
+        return kf(ev)
+    ctx.scan(traces, k, trim=300)
     ctx.rule = ('for 16 pixel organisations (interleaved 8/16/32f, planar, packed, bit-aligned 1..16 bits) x every shape 0..4 (quick) / 0..5 (thorough) '
                 'x alignments: images created / copied / assigned / recreated (grow, shrink, realign) through a tracking allocator, and interleaved/planar views '
                 'over caller buffers of exactly h x rowbytes flush against inaccessible pages; every composition of flip/rotate/transpose/subimage/subsample/'
-                'nth_channel up to depth 2; one event per view with the address of every pixel (and channel). Non-trivial = non-empty view; '
+                'nth_channel up to depth 2; one event per view with the address of every pixel (and channel). For C02/C03 additionally one VView event per '
+                '(virtual_2d_locator view | color_converted_view over an rgb16 image | color_converted_view over a virtual view) x base shape <= 4x3 / 4x4 x chain of up to 2 / 3 factories, '
+                'with the value (= base coordinates) reached through every accessor and the 1-D / axis iterator laws. Non-trivial = non-empty view; '
                 'distinct = distinct (root configuration, op, args, source view).')
     ctx.exhaustive = False
     ctx.assumptions += ['release-mode (NDEBUG) build of the driver so that assertions cannot mask accesses; ASan + UBSan (minus null/pointer-overflow checks on empty views) + guard pages observe accesses',
